@@ -6,6 +6,8 @@ if ! /venv/bin/python -c "import hypothesis" 2>/dev/null; then
     PIP_NO_INDEX=1 /venv/bin/pip install --no-index --find-links /opt/veriftools/wheels hypothesis
 fi
 /venv/bin/python -c "import hypothesis, sys; print('hypothesis', hypothesis.__version__, 'python', sys.version.split()[0])"
+# optional: the byte-level fuzz part of C15 runs under the tooling interpreter (atheris); without it that part is skipped
+(python3-vt -c "import atheris; print('atheris available')" 2>/dev/null) || echo "atheris not available: C15 fuzz part will be skipped"
 mkdir -p evidence replays
 chmod +x check
 echo setup ok
